@@ -9,7 +9,7 @@
 From Coq Require Import List NArith Bool.
 Import ListNotations.
 From DDP Require Import Gen.Tokens Lex.Utf8 Lex.Utf8Proofs Lex.ScanModel Lex.ScanSpec Lex.ScanRun
-  Lex.ScanProofs Lex.ScanKinds Lex.ScanIndent Lex.ScanMunch Lex.ScanFacts.
+  Lex.ScanProofs Lex.ScanKinds Lex.ScanIndent Lex.ScanMunch Lex.ScanComplete Lex.ScanFacts.
 Open Scope N_scope.
 
 (* 1. never out of fuel: every NextToken consumes at least one code point or returns EOF, so
@@ -116,6 +116,51 @@ Theorem C13_keywords_scan :
 Proof. exact keywords_scan. Qed.
 Print Assumptions C13_keywords_scan.
 
+(*    kind COMPLETENESS. first_token m rest k l (ScanSpec) = "l is a prefix of rest, (k, l) is an instance of a
+      lexical rule (class_ok) and l is maximal". For every token of the stream, the (type, literal) pairs the rules
+      allow at its start are exactly the scanned one: with C13_kinds this is the iff between scanner and rules. *)
+Theorem C13_kind_complete :
+  forall m l0 c0 i0 src ts, scan_from m l0 c0 i0 src = Some ts ->
+    Forall (fun t => forall k l, first_token m (skipn (N.to_nat (tstart t)) src) k l <->
+                                (k = ty t /\ l = sub src (tstart t) (tend t))) ts.
+Proof. exact scan_kind_iff. Qed.
+Print Assumptions C13_kind_complete.
+
+(*    the rules read forwards, shape of the source suffix => first_token (hence, by C13_kind_complete, the scanned token):
+      (a) numbers  (b) words: keyword by spelling or lower-casing (Ä/Ö/Ü included), else IDENTIFIER
+      (c) text / character literals with the escape rule, comments, unterminated forms to the end of the source
+      (d) alias parameters in alias mode  (e) punctuation and SYMBOL *)
+Theorem C13_kind_complete_rules :
+  forall m tail,
+    (forall a b, digits a -> digits b -> hd_sat tail isDigit = false ->
+       first_token m (a ++ 44 :: b ++ tail) tt_FLOAT (a ++ 44 :: b)) /\
+    (forall l, digits l -> hd_sat tail isDigit = false -> (forall d t', tail = 44 :: d :: t' -> isDigit d = false) ->
+       first_token m (l ++ tail) tt_INT l) /\
+    (forall l, word l -> hd_sat tail isAlphaNumeric = false ->
+       first_token m (l ++ tail) (match keyword_type l with Some v => v | None => tt_IDENTIFIER end) l) /\
+    (forall b, qbody 34 b -> first_token m (34 :: b ++ 34 :: tail) tt_STRING (34 :: b ++ [34])) /\
+    (forall b, qbody 39 b -> first_token m (39 :: b ++ 39 :: tail) tt_CHAR (39 :: b ++ [39])) /\
+    (forall q b, q = 34 \/ q = 39 -> qopen q b -> first_token m (q :: b) tt_ILLEGAL (q :: b)) /\
+    (forall b, depth_after 1 b = Some 0 -> first_token m (91 :: b ++ tail) tt_COMMENT (91 :: b)) /\
+    (forall b d, depth_after 1 b = Some d -> first_token m (91 :: b) tt_COMMENT (91 :: b)) /\
+    (forall b, ~ In 62 b -> first_token Alias (60 :: b ++ 62 :: tail) tt_ALIAS_PARAMETER (60 :: b ++ [62])) /\
+    (forall b, ~ In 62 b -> first_token Alias (60 :: b) tt_ALIAS_PARAMETER (60 :: b)) /\
+    (first_token m (45 :: tail) tt_NEGATE [45] /\ first_token m (44 :: tail) tt_COMMA [44] /\
+     first_token m (58 :: tail) tt_COLON [58] /\ first_token m (40 :: tail) tt_LPAREN [40] /\
+     first_token m (41 :: tail) tt_RPAREN [41] /\ first_token m (46 :: 46 :: 46 :: tail) tt_ELIPSIS [46; 46; 46] /\
+     ((forall t', tail <> 46 :: 46 :: t') -> first_token m (46 :: tail) tt_DOT [46])) /\
+    (forall c, isAlpha c = false -> isDigit c = false -> ~ blank c ->
+       ~ In c [45; 46; 44; 58; 40; 41; 34; 39; 91] -> (c = 60 -> m = Normal) -> first_token m (c :: tail) tt_SYMBOL [c]).
+Proof.
+  exact (fun m tail =>
+    conj (fun a b => ft_float m a b tail) (conj (fun l => ft_int m l tail) (conj (fun l => ft_word m l tail)
+    (conj (fun b => ft_quoted m 34 tt_STRING b tail (or_introl (conj eq_refl eq_refl)))
+    (conj (fun b => ft_quoted m 39 tt_CHAR b tail (or_intror (conj eq_refl eq_refl)))
+    (conj (ft_illegal m) (conj (fun b => ft_comment m b tail) (conj (ft_comment_open m)
+    (conj (fun b => ft_apar b tail) (conj ft_apar_open (conj (ft_punct m tail) (fun c => ft_symbol m c tail)))))))))))).
+Qed.
+Print Assumptions C13_kind_complete_rules.
+
 (* 7. indentation rule *)
 Theorem C13_indent :
   forall m l0 c0 i0 src ts, scan_from m l0 c0 i0 src = Some ts -> indents src true 0 i0 ts.
@@ -148,6 +193,16 @@ Example C13_sample_lf_in_alias_parameter :
   option_map (map (fun t => (length (lit t), tindent t, (sl t, sc t), (el t, ec t)))) (scan_from Alias 1 1 0 lf_alias) =
   Some [(3%nat, 0, (1,2), (2,2)); (1%nat, 0, (2,2), (2,3)); (0%nat, 0, (2,3), (2,3))].
 Proof. exact lf_alias_tokens. Qed.
+(* capitalised umlaut keywords: Überlädt / Öffentliche are looked up as überlädt / öffentliche *)
+Example C13_sample_umlaut_keywords :
+  keyword_type [220;98;101;114;108;228;100;116] = lookup keyword_table [252;98;101;114;108;228;100;116] /\
+  lookup keyword_table [252;98;101;114;108;228;100;116] <> None /\
+  keyword_type [214;102;102;101;110;116;108;105;99;104;101] = lookup keyword_table [246;102;102;101;110;116;108;105;99;104;101] /\
+  lookup keyword_table [246;102;102;101;110;116;108;105;99;104;101] <> None.
+Proof. exact umlaut_keywords. Qed.
+Example C13_sample_first_token :
+  first_token Normal ([49] ++ 44 :: [53] ++ [32; 120]) tt_FLOAT ([49] ++ 44 :: [53]).
+Proof. exact first_token_sample. Qed.
 Example C13_sample_utf8 :
   valid [195; 164; 226; 130; 172; 240; 159; 152; 128] = true /\ valid [237; 160; 128] = false /\ valid [192; 128] = false.
 Proof. exact sample_utf8. Qed.
